@@ -139,7 +139,7 @@ def run_campaign(prop, check, scenarios, seed, work, binp, module="ResponderTrac
 
 def finish(prop, tier, seed, t0, level, check, tot, viol, known, mcs, scenarios, assumptions, extra_cov=None, rule=None):
     replays = []
-    for i, (sc, why) in enumerate(viol):
+    for i, (sc, why) in enumerate(viol[:8]):   # a handful of replays is enough to act on
         replays.append(vlib.write_replay(prop, check, sc, why, seed, i))
     for k, sc in known:
         print("KNOWN-FINDING: property=%s %s" % (prop, k.get("what", "")))
@@ -201,7 +201,35 @@ def c05(prop, tier, seed, t0):
     return responder_check(prop, tier, seed, t0, {"C05"}, campaigns.campaign_c05(seed, tier))
 
 
-REGISTRY = {"C02": c02, "C03": c03, "C05": c05}
+def c04(prop, tier, seed, t0):
+    return responder_check(prop, tier, seed, t0, {"C04"}, campaigns.campaign_c04(seed, tier))
+
+
+def c06(prop, tier, seed, t0):
+    return responder_check(prop, tier, seed, t0, {"C06"}, campaigns.campaign_c06(seed, tier))
+
+
+def c07(prop, tier, seed, t0):
+    return responder_check(prop, tier, seed, t0, {"C07"}, campaigns.campaign_c07(seed, tier))
+
+
+def c08(prop, tier, seed, t0):
+    return responder_check(prop, tier, seed, t0, {"C08"}, campaigns.campaign_c08(seed, tier))
+
+
+def c09(prop, tier, seed, t0):
+    return responder_check(prop, tier, seed, t0, {"C09", "EQ"}, campaigns.campaign_c09(seed, tier))
+
+
+def c10(prop, tier, seed, t0):
+    return responder_check(prop, tier, seed, t0, {"C10"}, campaigns.campaign_c10(seed, tier))
+
+
+def c19(prop, tier, seed, t0):
+    return responder_check(prop, tier, seed, t0, {"C19"}, campaigns.campaign_c19(seed, tier))
+
+
+REGISTRY = {"C02": c02, "C03": c03, "C04": c04, "C05": c05, "C06": c06, "C07": c07, "C08": c08, "C09": c09, "C10": c10, "C19": c19}
 
 
 # =========================================================================== replay
